@@ -508,6 +508,13 @@ func (e *Explorer) judge(sc *Scenario, r execResult, diverged bool) {
 		e.Stats.ByCost[total]++
 	}
 	e.Stats.Outcomes[sc.Name+": "+r.out.Summary]++
+	if os.Getenv("VERIF_TRACEALL") != "" {
+		var tr []string
+		for _, d := range x.Trace {
+			tr = append(tr, d.Enabled[d.Chosen])
+		}
+		fmt.Printf("TRACE %s %v cost=%d: %v => %s\n", sc.Name, x.Choices, total, tr, r.out.Summary)
+	}
 	if r.out.Nontrivial {
 		e.Stats.Nontrivial[sc.Name+fmt.Sprint(x.Choices)] = true
 	}
